@@ -485,7 +485,9 @@ static PIP_Problem make_pip(Rng& r) {
   PIP_Problem p(d);
   Variables_Set params; params.insert(Variable(d - 1));
   p.add_to_parameter_space_dimensions(params);
-  for (dimension_type i = 0; i + 1 < d; ++i) p.add_constraint(Variable(i) >= 0);
+  // variables and the parameter are boxed: the solver need not terminate quickly (or at all) on the
+  // unbounded problems a random generator produces, which is another property's business (C07)
+  for (dimension_type i = 0; i < d; ++i) { p.add_constraint(Variable(i) >= 0); p.add_constraint(Variable(i) <= 4); }
   for (int s = r.range(1, 5); s-- > 0; ) {
     switch (r.range(0, 5)) {
     case 0: case 1: case 2: { Linear_Expression e = rexpr(r, d, 2); p.add_constraint(e >= 0); } break;
